@@ -76,6 +76,14 @@ def make_env(name, cfg):
         return lambda k, y: float(np.sum(np.abs(u(y) - 0.5)))
     if name == "sqrt":      # slopes grow without bound at small scale around u = 0.37
         return lambda k, y: float(np.sum(np.sqrt(np.abs(u(y) - 0.37))))
+    if name == "dec":       # a new record at every trial, whatever the point
+        return lambda k, y: float(-0.25 * k + 0.1 * np.sum(u(y)))
+    if name == "negquad":   # everything below -1
+        return lambda k, y: float(-5.0 + np.sum((u(y) - 0.3) ** 2))
+    if name == "big":       # magnitudes of 1e6, crossing zero
+        return lambda k, y: float(1e6 * np.sum(np.sin(5.0 * u(y)) - 0.2))
+    if name == "tiny":      # magnitudes of 1e-6, crossing zero (slopes far below the floor of M)
+        return lambda k, y: float(1e-6 * np.sum(np.cos(6.0 * u(y))))
     if name == "sin":
         return lambda k, y: float(np.sum(np.sin(7.0 * u(y)) + 0.3 * u(y)))
     raise KeyError(name)
